@@ -8,59 +8,84 @@ A case with a "then" part trains the SAME RMAX object on a second MDP afterwards
 import os, sys
 sys.path.insert(0, os.path.dirname(os.path.abspath(__file__)))
 from build import *
+from fractions import Fraction
+
+
+def lab(x):
+    """labels travel through JSON: lists stand for tuples"""
+    return tuple(lab(y) for y in x) if isinstance(x, list) else x
+
+
+def num(s, as_int):
+    f = Fraction(s)
+    return int(f) if (as_int and f.denominator == 1) else float(f)
 
 
 def build_labelled_mdp(case):
-    """QuickTabularMDP from a gen_mdp case whose actions(s) lists the action LABELS in the
-    per-state order case["action_perm"][s] (a permutation of the action ids; the set is the same in
-    every state) and whose labels are case["action_labels"][id] (ints or strings, possibly not in
-    sorted order).  Everything is keyed by label, never by position."""
+    """QuickTabularMDP from a gen_mdp case, presented as case says: state labels case["state_labels"][id],
+    action labels case["action_labels"][id] (ints, strings, tuples, bools; sorted order may differ from the
+    id order), actions(s) listing the labels in the per-state order case["action_perm"][s] as a tuple /
+    list / frozenset, optional explicit _state_list / _action_list in a shuffled order, integral gamma
+    passed as int.  Everything is keyed by label, never by position."""
     from msdm.core.mdp.quickmdp import QuickTabularMDP
     from msdm.core.distributions import DictDistribution
     m = case["mdp"]
-    labels = case.get("action_labels") or list(range(m["nA"]))
+    alab = [lab(x) for x in (case.get("action_labels") or list(range(m["nA"])))]
+    slab = [lab(x) for x in (case.get("state_labels") or list(range(m["n"])))]
     perm = case.get("action_perm") or [list(a) for a in m["actions"]]
+    cont = {"tuple": tuple, "list": list, "frozenset": frozenset}[case.get("actions_container", "tuple")]
     trans, rew = {}, {}
     for k, row in m["trans"].items():
         s, a = map(int, k.split(","))
-        trans[(s, labels[a])] = DictDistribution({ns: fl(p) for ns, p in row})
+        trans[(slab[s], alab[a])] = DictDistribution({slab[ns]: fl(p) for ns, p in row})
     for k, r in m["reward"].items():
         s, a, ns = map(int, k.split(","))
-        rew[(s, labels[a], ns)] = fl(r)
-    actions = [tuple(labels[a] for a in perm[s]) for s in range(m["n"])]
-    absorbing = list(m["absorbing"])
-    init = DictDistribution({s: fl(p) for s, p in m["init"]})
-    return QuickTabularMDP(
+        rew[(slab[s], alab[a], slab[ns])] = fl(r)
+    actions = {slab[s]: cont(alab[a] for a in perm[s]) for s in range(m["n"])}
+    absorbing = {slab[s]: bool(m["absorbing"][s]) for s in range(m["n"])}
+    init = DictDistribution({slab[s]: fl(p) for s, p in m["init"]})
+    mdp = QuickTabularMDP(
         next_state_dist=lambda s, a: trans[(s, a)],
         reward=lambda s, a, ns: rew.get((s, a, ns), 0.0),
         actions=lambda s: actions[s],
         initial_state_dist=init,
         is_absorbing=lambda s: absorbing[s],
-        discount_rate=fl(m["gamma"]),
-    ), labels
+        discount_rate=num(m["gamma"], case.get("ints_as_int", False)),
+    )
+    ex = case.get("explicit_lists")
+    if ex:
+        mdp._state_list = tuple(slab[s] for s in ex["states"])
+        mdp._action_list = tuple(alab[a] for a in ex["actions"])
+    return mdp, slab, alab
 
 
-def collect(learner, view):
-    """one train_on call of the given learner object on the MDP of `view`, with everything the
-    certificate needs, mapped back by label"""
+def collect(learner, view, mdp_parts=None):
+    """one train_on call of the given learner object on the MDP of `view` (or on the already built
+    and already used MDP object mdp_parts), with everything the certificate needs, mapped back by label"""
     import numpy as np
-    mdp, labels = build_labelled_mdp(view)
-    sl, al = list(mdp.state_list), list(mdp.action_list)      # al: LABELS in msdm's order
+    mdp, slab, alab = mdp_parts or build_labelled_mdp(view)
+    sl, al = list(mdp.state_list), list(mdp.action_list)      # LABELS in msdm's order
     sidx = {s: i for i, s in enumerate(sl)}
     aidx = {a: i for i, a in enumerate(al)}                   # label -> position in action_list
-    label_id = {lab: i for i, lab in enumerate(labels)}       # label -> generator action id
+    state_id = {x: i for i, x in enumerate(slab)}             # label -> generator state id
+    label_id = {x: i for i, x in enumerate(alab)}             # label -> generator action id
     res = learner.train_on(mdp)
     episodes = [{"steps": [[sidx[s], aidx[a], fj(r), sidx[ns], int(ai)] for (s, a, r, ns, ai) in ep["steps"]],
                  "end": sidx[ep["end"]]} for ep in res.event_listener_results]
     q = res.q_values
     qstates = list(q.keys())
-    return {
-        # action_list is reported as generator action ids in msdm's action_list order
-        "state_list": sl, "action_list": [label_id[a] for a in al], "action_labels_in_order": [str(a) for a in al],
-        "q_states": qstates,
-        "q_actions": [sorted(label_id[a] for a in q[s].keys()) for s in qstates],
+    pi = [[fj(res.policy.action_dist(s).prob(a)) for a in al] for s in sl]
+    pi_again = [[fj(res.policy.action_dist(s).prob(a)) for a in al] for s in sl]   # the policy object, used twice
+    outside = [x for x in slab if x not in sidx]              # generator states msdm did not list
+    out = {
+        # state_list / action_list are reported as generator ids in msdm's order
+        "state_list": [state_id[s] for s in sl], "action_list": [label_id[a] for a in al],
+        "labels_in_order": [repr(s) for s in sl] + ["|"] + [repr(a) for a in al],
+        "q_states": [state_id.get(s, repr(s)) for s in qstates],
+        "q_actions": [sorted(label_id.get(a, -1) for a in q[s].keys()) for s in qstates],
         "Q": [[fj(q[s][a]) if (s in q and a in q[s]) else None for a in al] for s in sl],
-        "pi": [[fj(res.policy.action_dist(s).prob(a)) for a in al] for s in sl],
+        "pi": pi, "pi_same_on_second_query": pi == pi_again,
+        "pi_outside": [[fj(res.policy.action_dist(s).prob(a)) for a in al] for s in outside],
         "episodes": episodes,
         "rewards": [[fj(x) for x in row] for row in learner.rewards.tolist()],
         "counts": [[fj(x) for x in row] for row in learner.s_a_counts.tolist()],
@@ -69,6 +94,7 @@ def collect(learner, view):
         "n_states": int(learner.n_states), "n_actions": int(learner.n_actions),
         "max_reward_matrix": fj(float(np.max(mdp.reward_matrix))),
     }
+    return out, (mdp, slab, alab)
 
 
 def one(case, pl):
@@ -92,18 +118,34 @@ def one(case, pl):
         def results(self):
             return self.episodes
 
-    learner = RMAX(episodes=int(case["episodes"]), rmax=fl(case["rmax"]),
-                   num_transition_samples=int(case["m"]),
-                   bellman_convergence_diff=fl(case["tol"]),
-                   seed=int(case["seed"]), event_listener_class=Recorder)
-    out = collect(learner, case)
+    ints = case.get("ints_as_int", False)
+
+    def make(listener=None):
+        kw = dict(episodes=int(case["episodes"]), rmax=num(case["rmax"], ints),
+                  num_transition_samples=int(case["m"]),
+                  bellman_convergence_diff=fl(case["tol"]),
+                  seed=None if case["seed"] is None else int(case["seed"]))
+        if listener is not None:
+            kw["event_listener_class"] = listener
+        return RMAX(**kw)
+
+    learner = make(Recorder)
+    out, parts = collect(learner, case)
+    if case.get("default_listener_rerun") and case["seed"] is not None:
+        # a second, fresh object of the class with the DEFAULT listener, on the already-used MDP object
+        r2 = make().train_on(parts[0])
+        sl = list(parts[0].state_list)
+        al = list(parts[0].action_list)
+        out["rerun"] = {"episode_rewards": [fj(x) for x in r2.event_listener_results.episode_rewards],
+                        "Q": [[fj(r2.q_values[s][a]) for a in al] for s in sl]}
     if "then" in case:
-        # object reuse: the SAME RMAX object, second problem (own discount rate, rewards, rmax)
+        # object reuse: the SAME RMAX object, second training (same MDP object, or a second problem with
+        # its own discount rate, rewards, rmax)
         view = {k: v for k, v in case.items() if k != "then"}
         view.update(case["then"])
-        learner.rmax = fl(view["rmax"])
+        learner.rmax = num(view["rmax"], view.get("ints_as_int", False))
         try:
-            out["second"] = collect(learner, view)
+            out["second"] = collect(learner, view, parts if view.get("same_mdp_object") else None)[0]
         except BaseException as e:
             if isinstance(e, (KeyboardInterrupt, SystemExit)):
                 raise
